@@ -3,8 +3,8 @@ package main
 import (
 	"bytes"
 	"crypto/sha256"
-	"encoding/json"
 	"encoding/hex"
+	"encoding/json"
 	"fmt"
 	"io"
 	"os"
@@ -33,14 +33,15 @@ type doc struct {
 }
 
 type material struct {
-	root    string // scratch
-	docs    []doc  // general documents
-	formEN  doc    // AcroForm using a core font + its fill data
-	jsonEN  []byte
-	formUK  doc // AcroForm using the user font Roboto-Regular + its fill data
-	jsonUK  []byte
-	fontDir string // font.UserFontDir (a symlink to one of verDirs)
-	verDirs []string
+	root     string // scratch
+	docs     []doc  // general documents, then (from nGeneral on) the free-list documents
+	nGeneral int
+	formEN   doc // AcroForm using a core font + its fill data
+	jsonEN   []byte
+	formUK   doc // AcroForm using the user font Roboto-Regular + its fill data
+	jsonUK   []byte
+	fontDir  string // font.UserFontDir (a symlink to one of verDirs)
+	verDirs  []string
 	// names[v] = the registry content of version v (sorted), common = names present in every version
 	names  [][]string
 	common []string
@@ -65,9 +66,10 @@ func newConf() *model.Configuration {
 // (font installation, document selection) is done once in the parent, so that a shard's first pdfcpu
 // call of any kind happens inside a concurrent round (lazy initialisation is part of what is observed).
 type manifest struct {
-	Docs    []string   `json:"docs"` // names; bytes are in <dir>/doc<i>.pdf
-	VerDirs []string   `json:"ver_dirs"`
-	Names   [][]string `json:"names"`
+	Docs     []string   `json:"docs"`      // names; bytes are in <dir>/doc<i>.pdf
+	NGeneral int        `json:"n_general"` // Docs[NGeneral:] are the free-list documents (freelist.go)
+	VerDirs  []string   `json:"ver_dirs"`
+	Names    [][]string `json:"names"`
 }
 
 // loadMaterial is the shard side: no pdfcpu call except pointing font.UserFontDir at a private symlink.
@@ -91,6 +93,7 @@ func loadMaterial(t *vk.T, dir string) *material {
 	for i, n := range mf.Docs {
 		m.docs = append(m.docs, doc{n, rd(fmt.Sprintf("doc%d.pdf", i))})
 	}
+	m.nGeneral = mf.NGeneral
 	m.formEN, m.jsonEN = doc{"form/english.pdf", rd("english.pdf")}, rd("english.json")
 	m.formUK, m.jsonUK = doc{"form/ukrainian.pdf", rd("ukrainian.pdf")}, rd("ukrainian.json")
 	m.fontDir = filepath.Join(m.root, "fonts")
@@ -200,6 +203,11 @@ func prepareMaterial(t *vk.T) string {
 	if len(m.docs) < 4 {
 		t.Broken("only %d usable documents", len(m.docs))
 	}
+	m.nGeneral = len(m.docs)
+	m.docs = append(m.docs, freeListDocs(t, t.Pick(8, 16))...)
+	if len(m.docs)-m.nGeneral < 4 {
+		t.Broken("only %d usable free-list documents", len(m.docs)-m.nGeneral)
+	}
 	rd := func(parts ...string) []byte {
 		b, err := os.ReadFile(filepath.Join(append([]string{repo, "pkg", "samples", "form"}, parts...)...))
 		if err != nil {
@@ -216,7 +224,7 @@ func prepareMaterial(t *vk.T) string {
 	wr("english.json", rd("fill", "english.json"))
 	wr("ukrainian.pdf", rd("demoSinglePage", "ukrainian.pdf"))
 	wr("ukrainian.json", rd("fill", "ukrainian.json"))
-	mf := manifest{VerDirs: m.verDirs, Names: m.names}
+	mf := manifest{VerDirs: m.verDirs, Names: m.names, NGeneral: m.nGeneral}
 	for i, d := range m.docs {
 		mf.Docs = append(mf.Docs, d.Name)
 		wr(fmt.Sprintf("doc%d.pdf", i), d.Data)
@@ -343,6 +351,17 @@ var ops = []opDef{
 	{Name: "merge", Kind: "pdf", Run: func(m *material, d, d2 doc, _ string) ([]byte, error) {
 		var w bytes.Buffer
 		err := api.MergeRaw([]io.ReadSeeker{bytes.NewReader(d.Data), bytes.NewReader(d2.Data)}, &w, false, newConf())
+		return w.Bytes(), err
+	}},
+	// operations that free objects (free list: FreeObject / DeleteObject, on write UndeleteObject)
+	{Name: "remove-pages", Kind: "pdf", Run: func(m *material, d, _ doc, _ string) ([]byte, error) {
+		var w bytes.Buffer
+		err := api.RemovePages(bytes.NewReader(d.Data), &w, []string{"2"}, newConf())
+		return w.Bytes(), err
+	}},
+	{Name: "remove-annotations", Kind: "pdf", Run: func(m *material, d, _ doc, _ string) ([]byte, error) {
+		var w bytes.Buffer
+		err := api.RemoveAnnotations(bytes.NewReader(d.Data), &w, nil, nil, nil, newConf())
 		return w.Bytes(), err
 	}},
 	{Name: "split", Kind: "pdfs", Run: func(m *material, d, _ doc, _ string) ([]byte, error) {
